@@ -23,7 +23,7 @@ from fractions import Fraction
 from engine import term as T, agg, build, vg, poly as P, polycheck as PC
 from engine.agg import ELEM, TU
 from engine.report import HOLDS, VIOLATED, UNDECIDED
-from .common import Analysed, fn_where
+from .common import Analysed, fn_where, narrowing
 from .c05 import matmul, sum_p, ONE
 from .c09 import ortho_check
 
@@ -98,6 +98,119 @@ def gen_eigsel(t):
         for which in ('max', 'min'):
             tu.add('w_%sev%d' % (which, d), 'Matrix%d%d<%s>& A, Vec%d<%s>& V' % (d, d, E, d, E), '%sEigenVector(A, V);' % which, d=d, which=which)
     return tu
+
+def check_jacobi_rotation(S, d, t):
+    """R12.jacobi (rotation): on the rotating path, in each of the cells rho > 0, rho < 0 and rho == 0 (equal diagonal
+    entries, the 45-degree rotation), with x = A[j][j], y = A[j][k], z = A[k][k], rho = (z-x)/(2y) and
+    t := (x - A'[j][j]) / y:
+      t^2 + 2 rho t - 1 = 0                 (the tangent that annihilates A[j][k]),
+      A'[k][k] = z + t y, A'[j][k] = 0, Z'[j] = Z[j] - t y, Z'[k] = Z[k] + t y,
+      every pair (column j, column k) of V and every off-diagonal pair of A is turned by one and the same rotation
+      (norms, and the dot and cross products of any two pairs, are preserved) whose tangent is t.
+    Returns (error or None, description)."""
+    E, sz, lt = ELEM[t]
+    j, k = 0, 1
+    def A_in(r, c): return agg.slot_in('a1', r * d + c, t)
+    def V_in(r, c): return agg.slot_in('a2', r * d + c, t)
+    Aout = [[S.out('a1', (r * d + c) * sz, sz, lt) for c in range(d)] for r in range(d)]
+    Vout = [[S.out('a2', (r * d + c) * sz, sz, lt) for c in range(d)] for r in range(d)]
+    Zout = [S.out('a3', i * sz, sz, lt) for i in range(d)]
+    outs = [x for row in Aout for x in row] + [x for row in Vout for x in row] + Zout
+    # a comparison used as a number ((a > 0) - (a < 0), the sign idiom) is the conditional it abbreviates
+    b2i = {}
+    st = list(outs); seen = set()
+    while st:
+        n = st.pop()
+        if n.id in seen: continue
+        seen.add(n.id); st.extend(n.args)
+        if n.op in ('zext', 'uitofp', 'sext', 'sitofp') and n.args[0].op in ('fcmp', 'icmp'):
+            one = 1 if n.op in ('zext', 'uitofp') else -1       # a signed one-bit true is -1
+            if n.op in ('zext', 'sext'): b2i[n] = T.ite(n.args[0], T.const_int(int(n.ty[1:]), one), T.const_int(int(n.ty[1:]), 0))
+            else: b2i[n] = T.ite(n.args[0], T.fp_from_value(n.ty, float(one)), T.fp_from_value(n.ty, 0.0))
+    if b2i:
+        memo = {}
+        outs = [T.subst(o, b2i, memo) for o in outs]
+    x, y, z = A_in(j, j), A_in(j, k), A_in(k, k)
+    # rho: the quotient compared with zero / whose magnitude is taken
+    rho = None
+    for c in P.all_conds(outs[0]):
+        if c.op == 'fcmp' and c.args[0].op == 'fdiv' and c.args[1].op == 'const' and T.const_value(c.args[1]) == 0: rho = c.args[0]
+        if c.op == 'fcmp' and c.args[1].op == 'fdiv' and c.args[0].op == 'const' and T.const_value(c.args[0]) == 0: rho = c.args[1]
+    if rho is None:
+        # the quotient whose magnitude enters the tangent
+        st = [outs[0]]; seen = set()
+        while st and rho is None:
+            n = st.pop()
+            if n.id in seen: continue
+            seen.add(n.id); st.extend(n.args)
+            if (n.op == 'absi' or (n.op == 'call' and 'fabs' in str(n.attr))) and n.args[0].op == 'fdiv': rho = n.args[0]
+    if rho is None: raise PC.Undecided('rho = mu1/mu2 was not recognised')
+    absn = []
+    st = list(outs); seen = set()
+    while st:
+        n = st.pop()
+        if n.id in seen: continue
+        seen.add(n.id); st.extend(n.args)
+        if (n.op == 'absi' or (n.op == 'call' and 'fabs' in str(n.attr))) and n.args[0] is rho: absn.append(n)
+    ncell = 0
+    for cell in ('rho > 0', 'rho < 0', 'rho == 0'):
+        ctx = P.Ctx()
+        cur = outs
+        if cell == 'rho == 0':
+            ctx.lin[ctx.key(z)] = P.patom(ctx.key(x))
+        else:
+            sub = {a: (rho if cell == 'rho > 0' else T.fneg(rho)) for a in absn}
+            memo = {}
+            cur = [T.subst(o, sub, memo) for o in cur]
+        def premise(c):
+            if c.op != 'fcmp': return None
+            a, b = c.args
+            if c.attr == 'ole' and (a.op == 'absi' or (a.op == 'call' and 'fabs' in str(a.attr))): return False       # the early-out |mu2| <= tol |mu1|: the rotating path
+            if cell == 'rho == 0': return None
+            pos = cell == 'rho > 0'
+            if a is rho and b.op == 'const' and T.const_value(b) == 0:
+                return {'olt': not pos, 'ole': not pos, 'ogt': pos, 'oge': pos, 'oeq': False, 'one': True, 'une': True}.get(c.attr)
+            if b is rho and a.op == 'const' and T.const_value(a) == 0:
+                return {'olt': pos, 'ole': pos, 'ogt': not pos, 'oge': not pos, 'oeq': False, 'one': True, 'une': True}.get(c.attr)
+            return None
+        for asg, res in PC.generic_cases(cur, ctx, premise=premise):
+            ncell += 1
+            A2 = [[ctx.rat(res[r * d + c]) for c in range(d)] for r in range(d)]
+            V2 = [[ctx.rat(res[d * d + r * d + c]) for c in range(d)] for r in range(d)]
+            Z2 = [ctx.rat(res[2 * d * d + i]) for i in range(d)]
+            X, Y, Zz = ctx.rat(x), ctx.rat(y), ctx.rat(z)
+            def sub_(a, b): return ctx.radd(a, (P.pneg(b[0]), b[1]))
+            tt = ctx.rdiv(sub_(X, A2[j][j]), Y)
+            rh = ctx.rdiv(sub_(Zz, X), ctx.rmul((P.pconst(2), ONE), Y))
+            eq = sub_(ctx.radd(ctx.rmul(tt, tt), ctx.rmul((P.pconst(2), ONE), ctx.rmul(rh, tt))), (P.pconst(1), ONE))
+            if not ctx.rzero(eq):
+                return 'cell %s: with t = (A[j][j] - A\'[j][j]) / A[j][k] the tangent equation t^2 + 2 rho t - 1 = 0 fails (t = %s): the rotation does not annihilate A[j][k]' % (cell, P.show_rat(tt, ctx)[:120]), None
+            h = ctx.rmul(tt, Y)
+            if not ctx.requal(A2[k][k], ctx.radd(Zz, h)): return 'cell %s: A\'[k][k] is not A[k][k] + t*A[j][k]' % cell, None
+            if not ctx.rzero(A2[j][k]): return 'cell %s: A\'[j][k] is not set to zero' % cell, None
+            Zi = [ctx.rat(agg.slot_in('a3', i, t)) for i in range(d)]
+            if not ctx.requal(Z2[j], sub_(Zi[j], h)) or not ctx.requal(Z2[k], ctx.radd(Zi[k], h)): return 'cell %s: Z[j] -= t*y / Z[k] += t*y' % cell, None
+            # pairs turned by the rotation: (V[i][j], V[i][k]) for every row, and the off-diagonal pairs of the upper triangle
+            pairs = [((ctx.rat(V_in(i, j)), ctx.rat(V_in(i, k))), (V2[i][j], V2[i][k]), 'V row %d' % i) for i in range(d)]
+            for l in range(d):
+                if l in (j, k): continue
+                pj = (l, j) if l < j else (j, l); pk = (l, k) if l < k else (k, l)
+                pairs.append(((ctx.rat(A_in(*pj)), ctx.rat(A_in(*pk))), (A2[pj[0]][pj[1]], A2[pk[0]][pk[1]]), 'A off-diagonal pair with index %d' % l))
+            (p0, q0), (p0n, q0n), _ = pairs[0]
+            for (p, q), (pn, qn), what in pairs:
+                if not ctx.requal(ctx.radd(ctx.rmul(pn, pn), ctx.rmul(qn, qn)), ctx.radd(ctx.rmul(p, p), ctx.rmul(q, q))):
+                    return 'cell %s: %s is not turned by a rotation (its norm changes)' % (cell, what), None
+                if not ctx.requal(ctx.radd(ctx.rmul(pn, p0n), ctx.rmul(qn, q0n)), ctx.radd(ctx.rmul(p, p0), ctx.rmul(q, q0))) or \
+                   not ctx.requal(sub_(ctx.rmul(pn, q0n), ctx.rmul(qn, p0n)), sub_(ctx.rmul(p, q0), ctx.rmul(q, p0))):
+                    return 'cell %s: %s is not turned by the same rotation as V row 0' % (cell, what), None
+            # the tangent of that rotation: (1, 0) goes to (c, s) with s / c = t
+            memo = {}
+            one_zero = {V_in(0, j): T.fp_from_value(lt, 1.0), V_in(0, k): T.fp_from_value(lt, 0.0)}
+            cq = ctx.rat(T.subst(res[d * d + j], one_zero, memo)); sq = ctx.rat(T.subst(res[d * d + k], one_zero, memo))
+            if not ctx.requal(sq, ctx.rmul(tt, cq)):
+                return 'cell %s: the rotation applied to V and to the off-diagonal entries has tangent %s, not t' % (cell, P.show_rat(ctx.rdiv(sq, cq), ctx)[:120]), None
+    if ncell < 3: return 'only %d of the cells rho > 0, rho < 0, rho == 0 are feasible' % ncell, None
+    return None, 'cells rho > 0, rho < 0, rho == 0: t^2 + 2 rho t - 1 = 0, diagonal / Z updates by t*y, A[j][k] = 0, %d pairs turned by one rotation of tangent t' % (2 * d - 2)
 
 def check_eigsel(rep, R, tu, t):
     """R12.eigsel: on every weak ordering of the magnitudes |S_i| of the solver's eigenvalues (and of any raw S_i the code
@@ -481,6 +594,11 @@ def main(rep, ws, tier):
                     rep.ob(oid, 'R12.jacobi', VIOLATED if bad else HOLDS, bad or '%d uses of rho = mu1/mu2, each behind the strict test |mu2| > tol*|mu1|' % ndiv, fn_where(S.fn))
             except (vg.Unsupported, OverflowError) as e:
                 rep.ob(oid, 'R12.jacobi', UNDECIDED, repr(e)[:300], fn_where(S.fn))
+            try:
+                err, desc = check_jacobi_rotation(S, m['d'], t)
+                rep.ob(oid + '#rotation', 'R12.jacobi', VIOLATED if err else HOLDS, err or desc, fn_where(S.fn))
+            except (P.NotPoly, PC.Undecided, vg.Unsupported, OverflowError) as e:
+                rep.ob(oid + '#rotation', 'R12.jacobi', UNDECIDED, repr(e)[:300], fn_where(S.fn))
         # zero-scale guards: every value the rows / shears are divided by went through checkForZeroScaleInRow
         for name, m in ti.meta.items():
             oid = '%s<%s>#zero' % (name[2:], E)
@@ -525,6 +643,7 @@ def main(rep, ws, tier):
                 rep.ob(oid, 'R12.gs', VIOLATED if e[0] else HOLDS, e[0] or e[1], where)
             except (P.NotPoly, PC.Undecided, vg.Unsupported, OverflowError) as e:
                 rep.ob(oid, 'R12.gs', UNDECIDED, repr(e)[:300], where)
+    narrowing(rep, ws, [gen_opaque('d'), gen_shrt('d'), gen_inline('d'), gen_jacobi('d')], 'R12.prec')
     rep.floor('factorisation obligations', len(rep.obs), 28 * len(types))
     rep.assumptions += ['exact real arithmetic at a generic point; opaque callee out-parameters are free atoms', 'set* matrices as documented (C09)']
     rep.undecided_clauses += ['jacobiSVD, jacobiEigenSolver, min/maxEigenVector, procrustesRotationAndTranslation: convergence loops over run-time data - no static argument in reach establishes U*S*V^T = A (R12.sweep / R12.offdiag / R12.jacobi decide necessary structural conditions only)',
